@@ -247,6 +247,7 @@ pub fn scenario(seed: u64, opts: &Opts) -> Made {
         }
     };
     let mut first = true;
+    let originals = resp.svcs.clone();
     for t in times {
         let mut cb = |w: &mut World| resp.react(w, h);
         w.run_until_cb(t0 + t, &mut cb);
@@ -276,7 +277,14 @@ pub fn scenario(seed: u64, opts: &Opts) -> Made {
             4 => {
                 // update: new port / TXT / address, flush bit set on the unique records
                 let mut s2 = s.clone();
+                let toggled_back = (s.port != originals[i].port || s.txt != originals[i].txt) && rng.chance(1, 2);
+                if toggled_back {
+                    // back to the values it had before (a device toggling a state): the displaced record may still be in the cache
+                    s2.port = originals[i].port;
+                    s2.txt = originals[i].txt.clone();
+                }
                 match rng.below(3) {
+                    _ if toggled_back => {}
                     0 => s2.port = s.port + 100,
                     1 => s2.txt = wire::txt_encode(&[(b"id".to_vec(), Some(b"new".to_vec()))]),
                     _ => s2.v4 = vec![[10, 0, 0, 200 + i as u8]],
@@ -290,7 +298,7 @@ pub fn scenario(seed: u64, opts: &Opts) -> Made {
                     }
                 }
                 send(&mut w, &s2.announce(), &mut rng);
-                desc.push_str(&format!(" @{t}:update{i}"));
+                desc.push_str(&format!(" @{t}:update{}{i}", if toggled_back { "-back" } else { "" }));
             }
             5 | 6 => {
                 resp.gone[i] = true;
